@@ -4,14 +4,14 @@ import os, sys, json, random, re, collections
 from vlib import runner, tlc
 import concurrent.futures as cf
 
-CONTAIN_KINDS = ["ok", "ok", "ok", "hugearg", "wrapped", "raise", "sysexit", "kbint", "unpicklable_arg", "too_large", "unpicklable_result", "big", "unpicklable_exc", "oserror_arg"]
+CONTAIN_KINDS = ["ok", "ok", "ok", "hugearg", "wrapped", "raise", "sysexit", "kbint", "unpicklable_arg", "too_large", "unpicklable_result", "big", "unpicklable_exc", "oserror_arg", "ebadf_arg", "epipe_arg", "partial_kw"]
 WORKER_LABELS = ["cq.rlock.acq", "cq.r.poll", "cq.r.recv", "cq.sem.rel", "cq.rlock.rel", "rq.wlock.acq", "rq.w.send",
                  "rq.w.send2", "rq.wlock.rel", "mgmt.try", "mgmt.rel", "init", "start"]
 
 DEFAULTS = dict(ev="", t=-1, u="", pid=-1, kind="", outcome="", bpp=False, twe=False, shut=False, etype="", good=False,
                 cause=False, res=False, wait=False, kill=False, how="", code=0, n=0, same=False, eid=-1, oldeid=-1, maxw=0,
                 nproc=0, broken=False, shutdown=False, oldbroken=False, oldshutdown=False, late=False, nbefore=0, kept=0, oldalive=0, reason="", pending=[], blockedusers=[],
-                blocked=[], liveprocs=[], unreaped=[], died=[], mgmtalive=False)
+                blocked=[], liveprocs=[], unreaped=[], died=[], mgmtalive=False, warn=False)
 
 
 def normalise(tr, scn):
@@ -27,6 +27,8 @@ def normalise(tr, scn):
                 d[k] = e[k]
         if ev == "call_exc":
             d["kind"] = e.get("call", "")
+            # the scenario turned the "resize with running jobs" warning into an error: the call legitimately raises it
+            d["warn"] = bool(scn["exec"].get("strict_resize")) and e.get("type") == "UserWarning" and "Trying to resize" in e.get("what", "")
         if "code" in e:
             d["code"] = e["code"] if isinstance(e["code"], int) and e["code"] >= 0 else 255
         if ev in ("resolve", "submit_rejected"):
@@ -223,6 +225,33 @@ def fam_resize_wait(rng):
     u1 = [["timeouts_off"], ["submit", 1, "long"], ["submit", 2, "ok"], ["wait", 2], ["reuse", n1, {}], ["submit", 3, "ok"], ["wait_all"], ["shutdown", True, False]]
     helper = [["wait_label", "u1", "sleep"], ["timeouts_on"], ["wait_live", 1], ["timeouts_off"], ["release", 1]]
     return dict(exec=dict(kind="reusable", max_workers=n0, timeout=0.5), users={"u1": u1, "h": helper}, fam="resize_wait", single=True)
+
+
+def fam_resize_strict(rng):
+    """the user turned the "Trying to resize an executor with running jobs" warning into an error (-W error / pytest
+    filterwarnings): the resize requested while a job runs raises; asked again once the job is done, it must be carried out"""
+    n0 = rng.choice([2, 3, 4])
+    n1 = rng.choice([n for n in (1, 2, 3, 4) if n != n0])
+    u1 = [["submit", 1, "long"], ["submit", 2, "ok"], ["wait", 2], ["reuse", n1, {}], ["release", 1], ["wait", 1], ["settle"],
+          ["reuse", n1, {}], ["submit", 3, "ok"], ["wait_all"]]
+    if rng.random() < 0.5:
+        u1 += [["reuse", rng.choice([1, 2, 3]), {}], ["submit", 4, "ok"], ["wait_all"]]
+    u1 += [["shutdown", True, False]]
+    return dict(exec=dict(kind="reusable", max_workers=n0, timeout=None, strict_resize=True), users={"u1": u1}, fam="resize_strict")
+
+
+def fam_resize_grow_crash(rng):
+    """an idle reusable executor is grown, one of the workers the resize spawned dies abruptly before anything else is
+    submitted, and the next call asks for fewer workers again: the death must be noticed although nothing woke the manager"""
+    n0 = rng.choice([1, 1, 2])
+    k = rng.choice([1, 1, 2])
+    u1 = [["submit", 1, "ok"], ["wait", 1], ["settle"], ["reuse", n0 + k, {}], ["settle"], ["reuse", rng.randint(1, n0), {}],
+          ["submit", 3, "ok"], ["wait_all"], ["shutdown", True, False]]
+    if rng.random() < 0.8:       # one of the new workers dies as soon as it exists ...
+        pol = dict(kind="prio", tp=0.0, crash_at=[dict(label="start", nth=n0 + rng.randint(1, k))])
+    else:                        # ... or any worker dies at any moment
+        pol = dict(tp=0.0, pcrash=0.02, max_crash=1)
+    return dict(exec=dict(kind="reusable", max_workers=n0, timeout=None), users={"u1": u1}, fam="resize_grow_crash", policy=pol)
 
 
 def fam_resize_crash(rng):
@@ -435,7 +464,7 @@ def fam_reusable(rng):
     return dict(exec=dict(kind="reusable", max_workers=m0, timeout=tmo), users=users, fam="reusable")
 
 
-FAMILIES = dict(reuse_kill=fam_reuse_kill, resize_shrink_big=fam_resize_shrink_big, stalled_manager=fam_stalled_manager, memleak=fam_memleak, resize_crash=fam_resize_crash, resize_saturation=fam_resize_saturation, trace=fam_trace, crash_shutdown=fam_crash_shutdown, callback=fam_callback, resize_partial=fam_resize_partial, resize_wait=fam_resize_wait, map=fam_map, reusable=fam_reusable, respawn_crash=fam_respawn_crash, mixed=fam_mixed, crash=fam_crash, kill=fam_kill, timeout=fam_timeout, saturation=fam_saturation, init=fam_init)
+FAMILIES = dict(resize_grow_crash=fam_resize_grow_crash, resize_strict=fam_resize_strict, reuse_kill=fam_reuse_kill, resize_shrink_big=fam_resize_shrink_big, stalled_manager=fam_stalled_manager, memleak=fam_memleak, resize_crash=fam_resize_crash, resize_saturation=fam_resize_saturation, trace=fam_trace, crash_shutdown=fam_crash_shutdown, callback=fam_callback, resize_partial=fam_resize_partial, resize_wait=fam_resize_wait, map=fam_map, reusable=fam_reusable, respawn_crash=fam_respawn_crash, mixed=fam_mixed, crash=fam_crash, kill=fam_kill, timeout=fam_timeout, saturation=fam_saturation, init=fam_init)
 
 
 def policies(rng, fam):
@@ -483,7 +512,13 @@ def gen_cases(seed, n, fams):
     for i in range(n):
         fam = fams[i % len(fams)]
         scn = FAMILIES[fam](rng)
-        cases.append(dict(i=i, scn=scn, policy=policies(rng, fam), seed=rng.randrange(1 << 30), keep_decisions=False))
+        pol = policies(rng, fam)
+        if "policy" in scn:          # the family places its own faults
+            code = pol.get("crash_code", -11) if "crash_at" not in pol else pol["crash_at"][0].get("code", -11)
+            pol.update(scn.pop("policy"))
+            for c in pol.get("crash_at", []):
+                c.setdefault("code", code)
+        cases.append(dict(i=i, scn=scn, policy=pol, seed=rng.randrange(1 << 30), keep_decisions=False))
     return cases
 
 
